@@ -24,19 +24,22 @@ ASSUMPTIONS = ["numpy confirms full column rank of the truth Jacobian before a c
                "distances, azimuth + distance (doc/gama-local-adj.texi 'Approximate coordinates') or observed coordinates / a vector or "
                "height difference from a point with given coordinates",
                "tolerances: 1e-5 m on coordinates (20*delta^2/d_min second-order allowance for the 0.5 m class), 0.01 mm / 0.1 cc on residuals"]
-REQUIRED_CLASSES = ["approx=exact", "approx=small", "approx=big", "approx=omit", "dims=2d", "dims=3d", "dims=1d", "with_dh"]
+REQUIRED_CLASSES = ["approx=exact", "approx=small", "approx=big", "approx=omit", "dims=2d", "dims=3d", "dims=1d", "with_dh", "steep_terrain", "pure_survey.polar3d", "pure_survey.intersection", "pure_survey.trilateration", "pure_survey.traverse"]
 
 XY_OMIT_OK = {"polar", "intersection", "trilateration", "traverse", "azdist", "coords", "polar3d"}
 
 
 @st.composite
 def case(draw):
-    pure = draw(st.integers(0, 7)) == 0
+    pure = draw(st.integers(0, 5)) == 0
     if pure:
-        # a pure total-station survey (direction + slope distance + zenith angle, nothing else): the approximate
-        # coordinates can only come from the slope distances reduced by their own zenith angles
-        net = draw(gen_net.determined_network(noise=0, dims="3d", only_recipe="polar3d"))
-        net["pure_polar3d"] = True
+        # a survey of one kind without redundant observations of other kinds (e.g. a pure total-station survey:
+        # direction + slope distance + zenith angle): the approximate coordinates can only come from the one algorithm
+        # made for it, nothing else covers up for it
+        kind = draw(st.sampled_from(["polar3d", "polar3d", "polar", "intersection", "trilateration", "traverse", "azdist", "vector"]))
+        net = draw(gen_net.determined_network(noise=0, dims="3d" if kind in ("polar3d", "vector") else draw(st.sampled_from(["2d", "3d"])),
+                                              only_recipe=kind))
+        net["pure_polar3d"] = kind
     else:
         net = draw(gen_net.determined_network(noise=0))
     mode = draw(st.sampled_from(["exact", "small", "big", "omit", "omit"] if not pure else ["omit"]))
@@ -222,7 +225,7 @@ def oracle(c, stats):
     if net.get("steep"):
         stats.label("steep_terrain")
     if net.get("pure_polar3d"):
-        stats.label("pure_polar3d")
+        stats.label("pure_survey", "pure_survey." + str(net["pure_polar3d"]))
     if any(o.get("from_dh") is not None for cl in net["clusters"] if cl["k"] == "obs" for o in cl["obs"]):
         stats.label("with_dh")
     for p in net["points"]:
